@@ -573,6 +573,7 @@ func runC03(c *core.Ctx) {
 	jobs, deaths := pool.Stats()
 	c.Count("l2_jobs", jobs)
 	c.Count("l2_process_deaths", deaths)
+	c.Count("l2_priming_runs", pool.Primed())
 }
 
 // c03World: names built from few segments so that prefixes are shared at several depths.
